@@ -323,7 +323,10 @@ class XMLResource(XMLResourceLoader):
         elif self._allow == 'remote':
             if is_local_url(url):
                 raise XMLResourceBlocked(f"block access to local resource {url}")
-        elif is_remote_url(url):
+        elif not is_local_url(url):
+            # Anything that is not positively a local URL is refused: is_remote_url() answers
+            # False for a string with a newline, and normalize_url() can return a remote URL
+            # with a decoded '%0A' when a relative location is joined to a remote base.
             raise XMLResourceBlocked(f"block access to remote resource {url}")
         elif self._allow == 'sandbox' and self._base_url is not None:
             base_url = normalize_url(self._base_url)
